@@ -39,7 +39,18 @@ def simlib(prop, rule, quick_s=45, thorough_s=600, probes=(), safety_prop=None, 
 LRULE = ("plans generated from mix(VERIF_SEED, i) by the %s generator; executed on the real libdbus endpoint under the simulated kernel; a run is non-trivial when faults fired or the "
          "delivery was cut into several steps and >=1 message was compared against the independent decoding; distinct = distinct FNV trace hash of the full event log")
 
+HELPER_COMPONENTS = {
+    "real": ["bus/activation-helper.c (run_launch_helper, built as the test launcher: configuration from TEST_LAUNCH_HELPER_CONFIG, no setuid / user switch), bus/config-parser-trivial.c, bus/desktop-file.c, libdbus"],
+    "stub": ["execv() - link-time seam that records the call", "the file system content: generated configuration and service files in a scratch directory (real files)"],
+}
+
 CHECKS = {
+    "C19H": {"binary": "simhelper", "prop": "C19H", "level": "exploration", "quick_s": 10, "thorough_s": 120,
+             "rule": "helper invocations generated from mix(VERIF_SEED, i): a valid or malformed name argument, 0-4 service files (complete / missing Name, Exec or User / other section / garbage / Name "
+                     "of another service) in two service directories, Exec lines with plain, quoted and unterminated-quote words, optionally an allocation failure at a chosen allocation; the "
+                     "real run_launch_helper() runs on them; distinct = distinct FNV trace hash",
+             "probes": ["helper_executed", "helper_refused_name", "helper_refused_file", "helper_refused_no_file", "helper_nomemory"], "components": HELPER_COMPONENTS,
+             "assumptions": ["exec is observed at execv(); the production helper's setuid / user switch (compiled out in the test launcher) is not exercised"], "safety_prop": "C19"},
     "C01": simlib("C01", LRULE % "C01 stream (0-6 structurally generated valid messages of every type/field/nesting shape and both byte orders, targeted shapes, optionally one single-site corruption — structural or byte-level — then more bytes; random max_message_size; arrival chunking, short reads, EINTR, allocation failure inside the loader)",
                   probes=["stream_with_invalid_message", "multi_message_stream", "oom_fired"]),
     "C17": simlib("C17", LRULE % "C17 (up to 8 outstanding calls with timeouts from 0 ms to infinite, observed by notify callback / polling / blocking; cancel, dispatch, read_write_dispatch, loop iterations, clock advances; peer replies in any order, duplicated, with unknown serials, split across writes, never, or closes; serial counter optionally started just below the 32-bit wrap)",
@@ -75,9 +86,9 @@ CHECKS = {
                           "monitor_captured_bus_message", "monitor_captured_client_message", "bus_message_refused_by_receive_policy", "unicast_refused", "dest_missing"], safety_prop="C10"),
     "C15": simbus("C15", RULE % "C15 (method calls and signals carrying 0 to beyond-the-maximum descriptors, header count smaller / equal / larger than attached, descriptors riding on the first or a later byte, senders and recipients with and without negotiated descriptor passing, policies refusing by interface or descriptor count, missing destinations, the bus itself as destination, closes of sender or recipient right behind a message, stalled recipients, small per-message and incoming limits, pending_fd_timeout by clock)",
                   probes=["fd_message_sent", "fd_message_received", "fds_without_negotiation", "fewer_fds_than_announced", "more_fds_than_allowed", "surplus_fds_sent", "pending_fd_timeout_fired", "unicast_refused", "dest_missing"], safety_prop="C15"),
-    "C19": simbus("C19", RULE % "C19 (several senders auto-starting and StartServiceByName-ing the same and different activatable names concurrently, with NO_AUTO_START and NO_REPLY variants, unicast signals; a scripted service process per fork that reports in, exits with status 0 / non-zero / by signal, or fails to exec, at arbitrary points; some connection taking the name quickly, late, never, or another name; service_start_timeout by clock; closes of waiting senders)",
+    "C19": dict(simbus("C19", RULE % "C19 (several senders auto-starting and StartServiceByName-ing the same and different activatable names concurrently, with NO_AUTO_START and NO_REPLY variants, unicast signals; a scripted service process per fork that reports in, exits with status 0 / non-zero / by signal, or fails to exec, at arbitrary points; some connection taking the name quickly, late, never, or another name; service_start_timeout by clock; closes of waiting senders)",
                   probes=["activation_started", "activation_joined_pending", "activation_completed", "held_message_released", "several_held_messages_released", "activation_failed_exit", "activation_failed_exec",
-                          "activation_failed_timeout", "activation_failure_several_waiters", "start_already_running", "start_unknown_service", "service_exit_status_0", "held_message_of_vanished_sender_dropped"], safety_prop="C10"),
+                          "activation_failed_timeout", "activation_failure_several_waiters", "start_already_running", "start_unknown_service", "service_exit_status_0", "held_message_of_vanished_sender_dropped"], safety_prop="C10"), companion="C19H"),
     "C14": dict(simbus("C14", "for each sampled (history, operation) pair generated from mix(VERIF_SEED, i): one fault-free execution counts the allocations n the bus makes while processing the "
                   "operation, then the whole plan is re-executed n times with allocation k = 0..n-1 of that operation failing (exhaustive in k, sampled in history and operation); an "
                   "evaluation is one (history, operation, k) execution; distinct = distinct trace hash; non-trivial = the injected failure fired and the outcome was compared with both admissible worlds",
@@ -209,9 +220,13 @@ MANIFEST_TEXT = {
                "bounded liveness: left alone for one service_start_timeout every pending activation has ended in errors.",
                "DESIGN.md section 4 C19", "deterministic simulation, seeded history / process-fate / clock search, model-based oracle on recorded history",
                note="Trusted base: simulated kernel incl. the scripted child side of dbus-spawn-unix.c's babysitter protocol (CHILD_PID / CHILD_EXITED / CHILD_EXEC_FAILED), the bus model. "
-                    "Process events and clock advances are injected at quiescent points so that their order against client traffic is unambiguous. NOT covered: the setuid activation "
-                    "helper clause of the statement (bus/activation-helper.c name / service-file validation) - no simhelper binary was built - and activation under a restrictive policy or "
-                    "with <servicehelper>. Sampling: evidence, not proof."),
+                    "Process events and clock advances are injected at quiescent points so that their order against client traffic is unambiguous. The helper clause of the statement is "
+                    "decided by a second binary (simhelper, run first on 20% of the budget; its coverage is folded into this evidence file under the prefix C19H:): the real "
+                    "run_launch_helper() of bus/activation-helper.c over generated name arguments (valid, malformed, path-like, over-long), 0-4 service files in two service directories "
+                    "(complete; missing Name / Exec / User; other section; garbage; Name of another service) and Exec lines with plain, quoted and unterminated-quote words, with an "
+                    "allocation failure at a chosen allocation; execv() is a link-time seam and is reached only for a valid bus name whose file declares exactly that name with Exec and "
+                    "User (under an allocation failure: that, or NoMemory), exactly once, for the program the line names. Not covered: the production helper's setuid / user switch "
+                    "(compiled out in the test launcher build), activation under a restrictive policy or with <servicehelper>. Sampling: evidence, not proof."),
     "C20": _mt("Seeded search over histories: the application of a real DBusConnection registers, registers as fallback and unregisters handlers on generated path sets (shared prefixes, "
                "adjacent sibling names, the root) while a scripted peer sends method calls, signals, Introspect and Peer.Ping to paths inside, beside and below them through the simulated "
                "socket (short reads / writes, EINTR); handlers decline, handle, stay silent, ask for memory once, unregister themselves or the handler that would be offered next, or "
